@@ -4,6 +4,7 @@ order of the clauses, under the partition of the triples over the FROM graphs, m
 planner's table (as a set of rows).
 -/
 import BW.Proofs.PlannerStep11
+import BW.Proofs.Projection
 open BW.Model BW.Spec BW.Proofs.ClauseOrder BW.Proofs.Planner BW.Proofs.Store
 
 namespace BW.Proofs.Planner
@@ -53,41 +54,140 @@ end BW.Proofs.Planner
 
 namespace BW.Proofs.Planner
 
+/-! ### The same two facts for `solutionsO` (object intervals read from the row) -/
+
+theorem joinClauseO_perm_scan (scan scan' : List Triple) (glo ghi : Option Int) (rows : List Row) (c : Clause)
+    (hs : scan.Perm scan') : (joinClauseO scan glo ghi rows c).Perm (joinClauseO scan' glo ghi rows c) := by
+  rw [joinClauseO_flat, joinClauseO_flat]
+  apply BW.Proofs.Query.flatMap_perm_left
+  intro r _
+  rw [specJoinO_eq, specJoinO_eq, ← joinClause_single, ← joinClause_single]
+  exact BW.Proofs.Query.joinClause_perm_scan scan scan' glo ghi [r] _ hs
+
+theorem joinClauseO_perm_rows (scan : List Triple) (glo ghi : Option Int) (rows rows' : List Row) (c : Clause)
+    (hr : rows.Perm rows') : (joinClauseO scan glo ghi rows c).Perm (joinClauseO scan glo ghi rows' c) := by
+  rw [joinClauseO_flat, joinClauseO_flat]
+  exact hr.flatMap_right _
+
+/-- The multiset of solutions is the same for every order of the scanned triples. -/
+theorem solutionsO_perm_scan (scan scan' : List Triple) (glo ghi : Option Int) (cs : List Clause) (hs : scan.Perm scan') :
+    (solutionsO scan glo ghi cs).Perm (solutionsO scan' glo ghi cs) := by
+  unfold solutionsO
+  suffices H : ∀ rows rows' : List Row, rows.Perm rows' →
+      (cs.foldl (joinClauseO scan glo ghi) rows).Perm (cs.foldl (joinClauseO scan' glo ghi) rows') from H _ _ (List.Perm.refl _)
+  induction cs with
+  | nil => intro rows rows' h; exact h
+  | cons c cs ih =>
+    intro rows rows' h
+    simp only [List.foldl_cons]
+    exact ih _ _ ((joinClauseO_perm_rows scan glo ghi rows rows' c h).trans (joinClauseO_perm_scan scan scan' glo ghi rows' c hs))
+
+theorem joinClauseO_mono (scan scan' : List Triple) (glo ghi : Option Int) (rows rows' : List Row) (c : Clause)
+    (hc : c.optional = false) (hs : ∀ t ∈ scan, t ∈ scan') (hr : ∀ r ∈ rows, r ∈ rows') :
+    ∀ r ∈ joinClauseO scan glo ghi rows c, r ∈ joinClauseO scan' glo ghi rows' c := by
+  intro x hx
+  rw [joinClauseO_flat] at hx ⊢
+  obtain ⟨r, hrm, hxr⟩ := List.mem_flatMap.mp hx
+  refine List.mem_flatMap.mpr ⟨r, hr r hrm, ?_⟩
+  rw [specJoinO_eq, ← joinClause_single] at hxr ⊢
+  have hc' : (withRowObjBounds c r).optional = false := by rw [withRowObjBounds_eq]; exact hc
+  exact BW.Proofs.Query.joinClause_mono scan scan' glo ghi [r] [r] _ hc' hs (fun _ h => h) x hxr
+
+/-- Adding triples never removes solutions of a pattern without OPTIONAL. -/
+theorem solutionsO_mono (scan scan' : List Triple) (glo ghi : Option Int) (cs : List Clause)
+    (hc : ∀ c ∈ cs, c.optional = false) (hs : ∀ t ∈ scan, t ∈ scan') :
+    ∀ r ∈ solutionsO scan glo ghi cs, r ∈ solutionsO scan' glo ghi cs := by
+  unfold solutionsO
+  suffices H : ∀ (rows rows' : List Row), (∀ r ∈ rows, r ∈ rows') →
+      ∀ r ∈ cs.foldl (joinClauseO scan glo ghi) rows, r ∈ cs.foldl (joinClauseO scan' glo ghi) rows' from
+    H [[]] [[]] (fun r h => h)
+  induction cs with
+  | nil => intro rows rows' h r hr; exact h r hr
+  | cons c cs ih =>
+    intro rows rows' h
+    simp only [List.foldl_cons]
+    apply ih (fun c hc' => hc c (List.mem_cons_of_mem _ hc'))
+    exact joinClauseO_mono scan scan' glo ghi rows rows' c (hc c (by simp)) hs h
+
 /-- **Partition, for the planner.** The same triples spread differently over the FROM graphs: the planner
     leaves the same set of rows. -/
 theorem planner_partition {gs gs' : List QGraph} {F : Facts} (hF : Facts.WF F = true) (hg : GraphsOK F gs) (hg' : GraphsOK F gs')
     (U : Universe gs) (U' : Universe gs') (lo : QOpts) (c0 : Clause) (cs : List Clause)
     (hscan : (gs.flatMap scanOf).Perm (gs'.flatMap scanOf))
     (hpc : ∀ c ∈ c0 :: cs, PatClause U c) (hpc' : ∀ c ∈ c0 :: cs, PatClause U' c)
-    (hno : ∀ c ∈ c0 :: cs, c.oLowerAlias = [] ∧ c.oUpperAlias = [])
     (hopt : c0.optional = false) (h0 : c0.extractsNothing = false)
     (out out' : Tbl) (h : processPattern F gs (c0 :: cs) lo 0 (fun _ => none) = .ok out)
     (h' : processPattern F gs' (c0 :: cs) lo 0 (fun _ => none) = .ok out') :
     SetEq out.rows out'.rows := by
-  have s1 := processPattern_spec_plain hF hg U lo c0 cs (hpc c0 List.mem_cons_self)
-    (fun c hc => hpc c (List.mem_cons_of_mem _ hc)) hno hopt h0 out h
-  have s2 := processPattern_spec_plain hF hg' U' lo c0 cs (hpc' c0 List.mem_cons_self)
-    (fun c hc => hpc' c (List.mem_cons_of_mem _ hc)) hno hopt h0 out' h'
-  exact (s1.trans (SetEq.of_perm (BW.Proofs.Query.solutions_perm_scan _ _ _ _ (c0 :: cs) hscan))).trans s2.symm
+  have s1 := processPattern_spec hF hg U lo c0 cs (hpc c0 List.mem_cons_self)
+    (fun c hc => hpc c (List.mem_cons_of_mem _ hc)) hopt h0 out h
+  have s2 := processPattern_spec hF hg' U' lo c0 cs (hpc' c0 List.mem_cons_self)
+    (fun c hc => hpc' c (List.mem_cons_of_mem _ hc)) hopt h0 out' h'
+  exact (s1.trans (SetEq.of_perm (solutionsO_perm_scan _ _ _ _ (c0 :: cs) hscan))).trans s2.symm
 
 /-- **More data, no fewer rows, for the planner** (patterns without OPTIONAL). -/
 theorem planner_monotone {gs gs' : List QGraph} {F : Facts} (hF : Facts.WF F = true) (hg : GraphsOK F gs) (hg' : GraphsOK F gs')
     (U : Universe gs) (U' : Universe gs') (lo : QOpts) (c0 : Clause) (cs : List Clause)
     (hsub : ∀ t ∈ gs.flatMap scanOf, t ∈ gs'.flatMap scanOf)
     (hpc : ∀ c ∈ c0 :: cs, PatClause U c ∧ c.optional = false) (hpc' : ∀ c ∈ c0 :: cs, PatClause U' c)
-    (hno : ∀ c ∈ c0 :: cs, c.oLowerAlias = [] ∧ c.oUpperAlias = [])
     (h0 : c0.extractsNothing = false)
     (out out' : Tbl) (h : processPattern F gs (c0 :: cs) lo 0 (fun _ => none) = .ok out)
     (h' : processPattern F gs' (c0 :: cs) lo 0 (fun _ => none) = .ok out') :
     ∀ r ∈ out.rows, ∃ r' ∈ out'.rows, RowEq r r' := by
-  have s1 := processPattern_spec_plain hF hg U lo c0 cs (hpc c0 List.mem_cons_self).1
-    (fun c hc => (hpc c (List.mem_cons_of_mem _ hc)).1) hno (hpc c0 List.mem_cons_self).2 h0 out h
-  have s2 := processPattern_spec_plain hF hg' U' lo c0 cs (hpc' c0 List.mem_cons_self)
-    (fun c hc => hpc' c (List.mem_cons_of_mem _ hc)) hno (hpc c0 List.mem_cons_self).2 h0 out' h'
+  have s1 := processPattern_spec hF hg U lo c0 cs (hpc c0 List.mem_cons_self).1
+    (fun c hc => (hpc c (List.mem_cons_of_mem _ hc)).1) (hpc c0 List.mem_cons_self).2 h0 out h
+  have s2 := processPattern_spec hF hg' U' lo c0 cs (hpc' c0 List.mem_cons_self)
+    (fun c hc => hpc' c (List.mem_cons_of_mem _ hc)) (hpc c0 List.mem_cons_self).2 h0 out' h'
   intro r hr
   obtain ⟨x, hx, e1⟩ := s1.1 r hr
-  have hx' := BW.Proofs.Query.solutions_mono _ _ _ _ (c0 :: cs) (fun c hc => (hpc c hc).2) hsub x hx
+  have hx' := solutionsO_mono _ _ _ _ (c0 :: cs) (fun c hc => (hpc c hc).2) hsub x hx
   obtain ⟨r', hr', e2⟩ := s2.2 x hx'
   exact ⟨r', hr', e1.trans e2.symm⟩
+
+end BW.Proofs.Planner
+
+namespace BW.Proofs.Planner
+open BW.Proofs.Projection
+
+/-- The reference's projection shows, column by column, the same cell (up to anchor zone) on rows that are equal up to
+    anchor zone. -/
+theorem project_get_norm (ps : List Proj) (hb : ∀ p ∈ ps, p.binding ≠ []) (hn : (ps.map Proj.out).Nodup)
+    {r x : Row} (e : RowEq r x) (p : Proj) (hp : p ∈ ps) :
+    ((project ps r).get p.out).map normCell = ((project ps x).get p.out).map normCell := by
+  have hone : p.out ≠ [] := by
+    by_cases ha : p.alias = []
+    · rw [out_of_noalias p ha]; exact hb p hp
+    · rw [out_of_alias p ha]; exact ha
+  rw [project_eq, project_eq, spec_get ps r hn [] p hp hone, spec_get ps x hn [] p hp hone]
+  have := e p.binding
+  cases h1 : r.get p.binding <;> cases h2 : x.get p.binding <;> simp [h1, h2] at this ⊢
+  exact this
+
+/-- **SELECT without GROUP BY, end to end.** The rows the planner projects (`projectRow` of the rows of its table) and
+    the reference's projections of the solutions show the same cells in the same output columns: every projected row
+    is the projection of a solution and every solution's projection is shown by some row (sets of rows, anchors up to
+    zone). -/
+theorem select_plain_spec {gs : List QGraph} {F : Facts} (hF : Facts.WF F = true) (hg : GraphsOK F gs) (U : Universe gs) (lo : QOpts)
+    (c0 : Clause) (cs : List Clause) (h0 : PatClause U c0) (hrest : ∀ c ∈ cs, PatClause U c)
+    (hopt : c0.optional = false) (hex : c0.extractsNothing = false) (out : Tbl)
+    (h : processPattern F gs (c0 :: cs) lo 0 (fun _ => none) = .ok out)
+    (ps : List Proj) (hb : ∀ p ∈ ps, p.binding ≠ []) (hn : (ps.map Proj.out).Nodup)
+    (hr : ∀ r ∈ out.rows, ∀ p ∈ ps, r.has p.binding = true) :
+    (∀ r ∈ out.rows, ∃ x ∈ solutionsO (gs.flatMap scanOf) (nl lo.lower) (nl lo.upper) (c0 :: cs),
+      ∀ p ∈ ps, ((projectRow ps r).get p.out).map normCell = ((project ps x).get p.out).map normCell) ∧
+    (∀ x ∈ solutionsO (gs.flatMap scanOf) (nl lo.lower) (nl lo.upper) (c0 :: cs), ∃ r ∈ out.rows,
+      ∀ p ∈ ps, ((projectRow ps r).get p.out).map normCell = ((project ps x).get p.out).map normCell) := by
+  have hs := processPattern_spec hF hg U lo c0 cs h0 hrest hopt hex out h
+  constructor
+  · intro r hrm
+    obtain ⟨x, hx, e⟩ := hs.1 r hrm
+    refine ⟨x, hx, fun p hp => ?_⟩
+    rw [projection_spec ps r hb hn (hr r hrm) p hp]
+    exact project_get_norm ps hb hn e p hp
+  · intro x hx
+    obtain ⟨r, hrm, e⟩ := hs.2 x hx
+    refine ⟨r, hrm, fun p hp => ?_⟩
+    rw [projection_spec ps r hb hn (hr r hrm) p hp]
+    exact project_get_norm ps hb hn e p hp
 
 end BW.Proofs.Planner
